@@ -19,6 +19,10 @@ def main():
     a = ap.parse_args()
     if not os.path.exists(WT):
         r = sh("git -C /repo worktree add --detach %s HEAD" % WT); print(r.stdout)
+    # the checks regenerate coq/theories/Gen/*.v from the tree they are pointed at: keep /repo's tables
+    gen = os.path.join(ROOT, "coq", "theories", "Gen")
+    keep = "/tmp/xvc-verif-seed-genkeep"
+    sh("rm -rf %s && cp -a %s %s" % (keep, gen, keep))
     for sid in a.ids:
         d = os.path.join(ROOT, "seeded", sid)
         meta = json.load(open(os.path.join(d, "meta.json")))
@@ -43,5 +47,7 @@ def main():
         res["caught"] = any(c["exit"] == 1 and c["violation_lines"] for c in res["checks"].values())
         json.dump(res, open(os.path.join(d, "result.json"), "w"), indent=1)
         sh("git -C %s checkout -- . && git -C %s clean -fdq" % (WT, WT))
+        sh("cp -a %s/. %s/" % (keep, gen))
+    sh("rm -rf %s" % keep)
 
 main()
